@@ -42,8 +42,8 @@ CHECKS["C13"] = dict(level="model_checking", design="5/C13", technique="TLA+ con
    note="Trusts the cache hooks (probe events at the four sites, registry ids fresh per op_class), Lang.tla for outputs, TLC. Bounded by the generated program shapes; collection schedule every 3rd allocation with full sweeps.")
 
 _gc_note = ("Trusts the allocator hooks (alloc / gc / intern events built inside allocate and the sweep functions; collection schedule switch), "
-            "Lang.tla and Sched.tla for the predicted outputs, TLC. Schedules: every allocation, every 2nd, every 7th (more in thorough), with and "
-            "without forced full sweeps. Memory safety is judged through its symptoms (output change, crash, refused allocator event).")
+            "Lang.tla and Sched.tla for the predicted outputs, TLC. Schedules: every allocation, every 2nd, every 7th, a low byte threshold (more in thorough), with and "
+            "without forced full sweeps; C05 also in the nan_boxing build. Memory safety is judged through its symptoms (output change, crash, refused allocator event).")
 CHECKS["C05"] = dict(level="model_checking", design="5/C05", note=_gc_note,
    technique="TLC predictions (Lang.tla, Sched.tla) replayed on the VM under TLC-independent collection schedules; allocator event traces validated by TLC against the contract Gc.tla",
    text="Programs whose behaviour TLC predicted - core, closure, class, exception and string families, and fiber/channel programs in which every value crossing a channel, every fiber body and every captured variable is a heap object reachable only through buffers, parked fibers or frame captures - are run under dense collection schedules; output, event stream and status must equal the schedule-free prediction, and the allocator events must be accepted by Gc.tla (no block freed twice or unallocated, nursery cycles free only nursery objects, intern table consistent).")
